@@ -562,6 +562,96 @@ theorem multiband_band_picks (lib : List (AmpSpec ℝ)) (ext : ℝ) (c : NodeCtx
   obtain ⟨_, hpre, hpick, _, _⟩ := multibandDesign_unfold lib ext c ok bts d h
   exact ⟨hpre, pickAll_forall₂ lib ext ok d.preselected bts d.picks hpick⟩
 
+/-! ### a user-typed Multiband_amplifier -/
+
+/-- a typed node whose listed amplifiers were accepted at load time lists only members of its type -/
+theorem typedLoad_members (lib : List (AmpSpec ℝ)) (tv : String) (listed : List String)
+    (h : typedLoadOk lib tv listed = true) (hne : listed ≠ []) :
+    ∃ e ∈ entriesOf lib, e.1 = tv ∧ ∀ p ∈ listed, p ∈ e.2 := by
+  simp only [typedLoadOk, Bool.or_eq_true, List.isEmpty_iff, List.contains_iff_mem] at h
+  rcases h with h | h
+  · exact absurd h hne
+  · rw [findTypeVariety, findTypeVarietyE_mem] at h
+    exact h.2
+
+private theorem typedPickAll_forall₂ (lib : List (AmpSpec ℝ)) (ext : ℝ) (ok : Bool) (members : List String) :
+    ∀ (amps : List (BandTarget ℝ × String)) (picks : List String), typedPickAll lib ext ok members amps = some picks →
+      List.Forall₂ (fun a pk => typedPick lib ext ok members a = some pk) amps picks := by
+  intro amps
+  induction amps with
+  | nil => intro picks h; simp only [typedPickAll, Option.some.injEq] at h; subst h; exact List.Forall₂.nil
+  | cons a rest ih =>
+    intro picks h
+    simp only [typedPickAll] at h
+    split at h
+    · cases h
+    · rename_i p hp
+      split at h
+      · cases h
+      · rename_i ps hps
+        simp only [Option.some.injEq] at h
+        subst h
+        exact List.Forall₂.cons hp (ih ps hps)
+
+/-- one amplifier of a typed node: it keeps its own type_variety, or receives a model chosen by `select_edfa`
+which — the typed entry having a member that covers the amplifier's band — is a member of the typed entry
+covering that band (and capable / quietest among those members by `band_pick_spec`) -/
+theorem typedPick_spec (lib : List (AmpSpec ℝ)) (ext : ℝ) (ok : Bool) (members : List String)
+    (a : BandTarget ℝ × String) (pk : String) (h : typedPick lib ext ok members a = some pk) :
+    (a.2 ≠ "" ∧ pk = a.2) ∨
+    (a.2 = "" ∧ bandPick lib ext ok members a.1 = some pk ∧
+      (bandRestrictions lib members a.1.band ≠ [] →
+        pk ∈ members ∧ ∃ s, lookup lib pk = some s ∧ s.covers a.1.band = true)) := by
+  simp only [typedPick] at h
+  split at h
+  · rename_i hown
+    simp only [Option.some.injEq] at h
+    exact Or.inl ⟨hown, h.symm⟩
+  · rename_i hown
+    refine Or.inr ⟨by simpa using hown, h, ?_⟩
+    intro hne
+    simp only [bandPick, Option.map_eq_some_iff] at h
+    obtain ⟨ch, hsel, rfl⟩ := h
+    obtain ⟨hin, _⟩ := selected_in_restrictions lib _ ok _ _ _ ch hne hsel
+    simp only [bandRestrictions, List.mem_filter] at hin
+    obtain ⟨hmem, hcov⟩ := hin
+    refine ⟨hmem, ?_⟩
+    cases hl : lookup lib ch.variety with
+    | none => simp [hl] at hcov
+    | some s => exact ⟨s, rfl, by simpa [hl] using hcov⟩
+
+/-- **typed element**: when the design is not rejected, every amplifier of the node keeps its own type or gets
+a member of the typed entry covering its band, and the name the node ends with is an entry listing all of them;
+if the typed entry is the only entry listing them, the user's type_variety is kept -/
+theorem typed_design_sound (lib : List (AmpSpec ℝ)) (ext : ℝ) (tv : String) (ok : Bool)
+    (amps : List (BandTarget ℝ × String)) (d : MultiDesign) (h : typedDesign lib ext tv ok amps = some d) :
+    ∃ e, lookup lib tv = some e ∧
+      List.Forall₂ (fun a pk => typedPick lib ext ok (e.multiBand.getD []) a = some pk) amps d.picks ∧
+      (∀ t ∈ d.candidates, ∃ en ∈ entriesOf lib, en.1 = t ∧ ∀ p ∈ d.picks, p ∈ en.2) ∧
+      ((∀ en ∈ entriesOf lib, (∀ p ∈ d.picks, p ∈ en.2) → en.1 = tv) → d.candidates.head? = some tv) := by
+  simp only [typedDesign] at h
+  split at h
+  · cases h
+  · rename_i e he
+    split at h
+    · cases h
+    · rename_i picks hp
+      split at h
+      · cases h
+      · rename_i t ts hc
+        simp only [Option.some.injEq] at h
+        subst h
+        refine ⟨e, he, typedPickAll_forall₂ lib ext ok _ amps picks hp, ?_, ?_⟩
+        · intro t' ht'
+          simp only at ht'
+          rw [← hc, findTypeVariety, findTypeVarietyE_mem] at ht'
+          exact ht'.2
+        · intro huniq
+          have : t ∈ findTypeVariety lib picks := by rw [hc]; simp
+          rw [findTypeVariety, findTypeVarietyE_mem] at this
+          obtain ⟨_, en, hen, rfl, hall⟩ := this
+          simp [huniq en hen hall]
+
 /-! ### non-vacuity -/
 example : restrictionList ⟨"", some [], some ["b"], some ["p"]⟩ = ["b"] := by decide
 example : nfLt (none : Option ℝ) (some 3) = true := rfl
